@@ -40,6 +40,10 @@ claimed = {
    text="Bounded exhaustive model checking: every built-in x arity 0..2 (thorough: 3) x the 27-value type-chaotic alphabet, ~100 node shapes x value tuples, every corpus program in 10 result positions (bare, in an array, in an object, through a lambda, through $map, indexed, chained) on 4 documents, 26 numeric shapes x all pairs of 16 edge numbers (overflowing powers, sums, products) - each checked by a type walk of the returned Go value (only JSON kinds and function values, finite numbers), json.Marshal, ErrUndefined shape, and a differential oracle EvalBytes(encode(input)) vs Eval(decode(encode(input))); EvalBytes input validation on all byte strings of length <=3 (thorough: 4) over 18 bytes and on 11 documents x 16 prefixes x 16 suffixes x truncations.",
    note="Trusted: encoding/json as the definition of valid JSON input and of the encoding. Results whose order follows Go map iteration are compared as multisets. That ErrUndefined is reported exactly for 'no value' is decided against the reference model in C01-C03, C12-C15; here only totality of the mapping and its shape.",
    technique="explicit enumeration of bounded programs and input byte strings (stateless DFS) with type-walk and Eval/EvalBytes differential oracles", design="§5 C10", engine=E1),
+ "C16": dict(
+   text="Bounded exhaustive model checking: all strings of length 0..3 (thorough: 0..4) over a 10-unit alphabet mixing ASCII, 2-, 3- and 4-byte characters, whitespace and separator characters, crossed with every start/length/width in -8..8, pad strings of 0..3 units and separators of 0..2 units, for $length, $substring (2/3 arguments), $pad (2/3), $substringBefore/After, $trim, $uppercase/$lowercase, $contains, $split (2/3), $join (1/2), $replace (3/4), base64 and URL codecs, each in direct and context-defaulting form, compared with []rune reference definitions; the inverse laws of the statement are evaluated as JSONata equalities on every enumerated string.",
+   note="Trusted: the []rune reference functions in mc/props/c16.go, unicode.ToUpper/ToLower, encoding/base64 and net/url as independent oracles. Fractional parameters are checked for totality only (statement silent on the cast). Characters outside the alphabet are not covered.",
+   technique="explicit enumeration of all bounded strings x parameters (stateless DFS) vs code-point reference definitions and in-language laws", design="§5 C16", engine=E1),
 }
 pending_reason = "check not built yet in this session (planned, see DESIGN.md §5)"
 
